@@ -197,7 +197,9 @@ ADDENDA3 = {
     "C02": "Session 3: honest_chain_verifies / honestCheck_sound now hold for any number of functionaries per step and any threshold "
            "(the succeeds-if half at pipeline level); wherever their hypotheses hold on a generated world the prediction must be the "
            "implementation's result. Double replay, one gpg functionary with two subkey links beside a replayed link, a key store "
-           "that spells a gpg id in upper case, validly signed ill-formed links.",
+           "that spells a gpg id in upper case, validly signed ill-formed links. C02_unloadable_link_never_skipped: a link file "
+           "that exists under a tried name and does not load ends the loading with an error, whatever else is there (files whose "
+           "text does not load, and signature values damaged into non-hex, are tamper kinds of every run).",
     "C03": "Session 3: a family over verify_all_item_rules (several items, both rule lists, shared paths) against the Lean "
            "verifyAllItemRules (driver op all_item_rules); prefixes written with backslashes.",
     "C04": "Session 3: C11_run_link_is_loaded; line-ending-only tamper; gpg key ids in other spellings and keys with signing subkeys; "
@@ -215,7 +217,8 @@ ADDENDA3 = {
            "several functionaries, delegated steps; output split inside a character on both streams.",
     "C18": "Session 3: a share of every family runs the front end as a child process, in both spellings (the console-script wrapper "
            "generated from [project.scripts] of the current pyproject.toml, and python -m); every variant of every family occurs in "
-           "every run.",
+           "every run. The outcome of in-toto-verify's operation is the MODEL's on worlds without inspection commands "
+           "(C02_unloadable_link_never_skipped among the theorems that then apply), not merely the library's.",
 }
 NOTE_REPLACEMENTS["C11"] = (NOTE_REPLACEMENTS["C11"][0],
                             "Honest-chain acceptance is a theorem for any number of functionaries per step, any threshold and delegated "
